@@ -180,7 +180,7 @@ func solveOne(i int, o *Obligation, cfg solveCfg) {
 		r, a1 = race(file, solvers[:2], cfg.quickT)
 		all = append(all, a1...)
 	}
-	if r.answer != "sat" && r.answer != "unsat" {
+	if r.answer != "sat" && r.answer != "unsat" && !(o.ExpectSat && cfg.tier != "thorough") {
 		r2, a2 := race(file, solvers, cfg.fullT)
 		all = append(all, a2...)
 		r = r2
